@@ -20,7 +20,7 @@ sys.path.insert(0, HERE)
 import z3  # noqa: E402
 from vc import build, ir, symex, smt, replay  # noqa: E402
 
-CONTRACT_MODULES = ['calendar', 'period', 'clock', 'registrar', 'timezone', 'zoned', 'ruleday']
+CONTRACT_MODULES = ['calendar', 'period', 'clock', 'registrar', 'timezone', 'zoned', 'ruleday', 'encoding']
 
 
 class Run:
@@ -178,7 +178,7 @@ def triage(R):
                 rep['custom_replay_error'] = repr(e)
             if cr is not None:
                 replayed, rep['custom_replay'] = cr
-        if not replayed and R.refutation:
+        if not replayed and R.refutation and getattr(R, 'refutation_applies', lambda o: True)(o):
             rep['refuter_found'] = R.refutation
             replayed = True
         rep['replayed_on_real_code'] = replayed
@@ -271,7 +271,7 @@ def finish(R, level, explanation):
         R.log('VACUOUS precondition(s):', vac)
         write_evidence(R, level, 'vacuous precondition: ' + repr(vac))
         return 3
-    if R.refutation and not any(o.status == 'sat' for o in R.obligations):
+    if R.refutation and (not any(o.status == 'sat' for o in R.obligations) or getattr(R, 'refutation_applies', None) is not None):
         # the bounded stand-in found a failing input although every proof obligation passed
         rdir = os.path.join(HERE, 'replays', R.prop)
         os.makedirs(rdir, exist_ok=True)
